@@ -143,8 +143,11 @@ Fixpoint take_line (l : str) : str * option str :=
   | c :: r => if c =? 10 then ([], Some r) else let '(a, b) := take_line r in (c :: a, b)
   end.
 
-Definition strip_cr (l : str) : str :=
-  match rev l with 13 :: r => rev r | _ => l end.
+Fixpoint strip_cr (l : str) : str :=
+  match l with
+  | [] => []
+  | c :: r => match r with [] => if c =? 13 then [] else [c] | _ => c :: strip_cr r end
+  end.
 
 Fixpoint events_of (fuel : nat) (script : str) : list event :=
   match fuel with
